@@ -244,6 +244,35 @@ func decl1(c *Ctx) {
 	c.Mark(optReg)
 	c.Mark(argReg)
 	for _, fn := range c.pkgFuncsDeep("") {
+		// no way out of a declaring function around the registration
+		var regs []ssa.CallInstruction
+		for _, call := range ir.Calls(fn) {
+			if callee := ir.Static(call); callee == optReg || callee == argReg {
+				regs = append(regs, call)
+			}
+		}
+		if len(regs) > 0 {
+			silent := ""
+			for _, r := range ir.Returns(fn) {
+				behind := false
+				for _, call := range regs {
+					if call.Block() == r.Block() || call.Block().Dominates(r.Block()) {
+						behind = true
+					}
+				}
+				if !behind && !ir.MustPassBefore(r, func(in ssa.Instruction) bool {
+					ci, isCall := in.(ssa.CallInstruction)
+					if !isCall {
+						return false
+					}
+					callee := ir.Static(ci)
+					return callee == optReg || callee == argReg
+				}) {
+					silent = c.P.Pos(r.Pos())
+				}
+			}
+			c.Check(silent == "", Q(fn)+":always-registers", fn.Pos(), "every normal return follows a registration", "the function can return at "+silent+" without having registered anything: the declaration is dropped silently")
+		}
 		for _, call := range ir.Calls(fn) {
 			callee := ir.Static(call)
 			if callee != optReg && callee != argReg {
@@ -497,6 +526,12 @@ func decl2(c *Ctx) {
 				if len(r.Results) != 1 || r.Results[0] != ssa.Value(deleg) {
 					problems = append(problems, "does not return the delegate's result")
 				}
+			}
+		}
+		for _, r := range ir.Returns(fn) {
+			if deleg.Block() != r.Block() && !deleg.Block().Dominates(r.Block()) {
+				problems = append(problems, "can return without having delegated (the declaration would be dropped silently)")
+				break
 			}
 		}
 		sort.Strings(problems)
@@ -795,6 +830,13 @@ func decl4(c *Ctx) {
 		if ok, why := c.lookupGuard(fn, "optionsIdx", mu.Key, mu.Block()); !ok {
 			problems = append(problems, why)
 		}
+		if isRange {
+			if h := rangeHeader(elemIndex(mu.Key)); h != nil {
+				if _, entry, _ := loopBody(h); entry != nil && entry != mu.Block() && ir.Reach(entry, map[*ssa.BasicBlock]bool{mu.Block(): true}, nil)[h] {
+					problems = append(problems, "a name can be passed over without being entered in the index")
+				}
+			}
+		}
 		if len(problems) > 0 {
 			c.Bad(key, mu.Pos(), "%s", strings.Join(problems, "; "))
 		} else {
@@ -928,6 +970,17 @@ func decl4names(c *Ctx, fn *ssa.Function) {
 	})
 	if len(stores) == 0 {
 		problems = append(problems, "names are never rewritten")
+	} else {
+		// no name is passed over: an iteration cannot come back to the loop header around the stores
+		blocked := map[*ssa.BasicBlock]bool{}
+		for _, ns := range stores {
+			blocked[ns.st.Block()] = true
+		}
+		if h := rangeHeader(stores[0].st.Addr.(*ssa.IndexAddr).Index); h != nil {
+			if _, entry, _ := loopBody(h); entry != nil && !blocked[entry] && ir.Reach(entry, blocked, nil)[h] {
+				problems = append(problems, "a name can be passed over without getting its dash prefix")
+			}
+		}
 	}
 	// for a name of length n exactly one store applies and it carries the right prefix
 	for _, n := range []int64{1, 2, 3, 7} {
@@ -1274,6 +1327,56 @@ func decl5validator(c *Ctx, fn *ssa.Function) {
 			problems = append(problems, "a true result does not require the single token to be of kind Arg")
 		}
 	}
+	// and the converse: false has no other ground than a scanner error, a token count other than one, or
+	// a kind other than Arg (a valid name must be accepted)
+	for _, r := range ir.ReturnWays(fn) {
+		if b, isC := ir.ConstBool(r.Results[0]); !isC || b {
+			continue
+		}
+		good := errCmpH(errv, r.Holds, false)
+		// an empty name, or a nil token: neither can be a valid argument name whatever the scanner says
+		{
+			cut := map[ir.Edge]bool{}
+			for _, e := range lenOnlyZeroEdges(fn, fn.Params[0]) {
+				cut[e] = true
+			}
+			if len(cut) > 0 && !r.ReachableUnder(ir.Reach(fn.Blocks[0], nil, cut), cut) {
+				good = true
+			}
+		}
+		ir.Instrs(fn, func(in ssa.Instruction) {
+			val, isV := in.(ssa.Value)
+			if !isV {
+				return
+			}
+			if bo, ok := isKindTest(val); ok && r.Holds(bo, false) {
+				good = true
+			}
+			if bo, isBo := val.(*ssa.BinOp); isBo && ir.IsNilConst(bo.Y) && (bo.Op == token.EQL || bo.Op == token.NEQ) {
+				if ld, isLd := bo.X.(*ssa.UnOp); isLd && ld.Op == token.MUL {
+					if ia, isIA := ld.X.(*ssa.IndexAddr); isIA && ia.X == toks && r.Holds(bo, bo.Op == token.EQL) {
+						good = true
+					}
+				}
+			}
+			if bo, isBo := val.(*ssa.BinOp); isBo {
+				if lc, isCall := bo.X.(*ssa.Call); isCall && len(lc.Call.Args) == 1 && lc.Call.Args[0] == toks {
+					if bi, isB := lc.Call.Value.(*ssa.Builtin); isB && bi.Name() == "len" {
+						if k, isK := ir.ConstInt(bo.Y); isK {
+							for _, want := range []bool{true, false} {
+								if o, okO := lenCmp(bo.Op, 1, k); okO && o != want && r.Holds(bo, want) {
+									good = true
+								}
+							}
+						}
+					}
+				}
+			}
+		})
+		if !good {
+			problems = append(problems, "can return false at "+c.P.Pos(r.Pos())+" for a reason other than a scanner error, a token count other than one, or a kind other than Arg")
+		}
+	}
 	problems = dedupe(problems)
 	if !sawTrue {
 		problems = append(problems, "never returns true")
@@ -1281,7 +1384,7 @@ func decl5validator(c *Ctx, fn *ssa.Function) {
 	if len(problems) > 0 {
 		c.Bad(key, fn.Pos(), "%s", strings.Join(problems, "; "))
 	} else {
-		c.OK(key, fn.Pos(), "true requires: scanner error nil, exactly one token, kind Arg")
+		c.OK(key, fn.Pos(), "true requires: scanner error nil, exactly one token, kind Arg; false has no other ground")
 	}
 }
 
